@@ -407,7 +407,9 @@ func c02FreshContext(c *Ctx) {
 	dec := callsIn(fn, false, func(cc *ssa.CallCommon) bool { return cc.IsInvoke() && cc.Method.Name() == "Decode" })
 	hf := callsIn(fn, false, func(cc *ssa.CallCommon) bool { return methodName(cc) == "handleFrame" })
 	nx := callsIn(fn, false, func(cc *ssa.CallCommon) bool { return methodName(cc) == "Next" })
-	get := callsIn(fn, false, func(cc *ssa.CallCommon) bool { return methodName(cc) == "Get" && strings.Contains(calleeName(cc), "ContextManager") })
+	get := callsIn(fn, false, func(cc *ssa.CallCommon) bool {
+		return methodName(cc) == "Get" && strings.Contains(calleeName(cc), "ContextManager")
+	})
 	if len(dec) != 1 || len(hf) != 1 || len(nx) < 1 {
 		c.Fail("C02.R9", fk+":shape", fn.Pos(), fmt.Sprintf("expected one Decode / one handleFrame / a Next call, found %d/%d/%d", len(dec), len(hf), len(nx)))
 		return
